@@ -136,7 +136,7 @@ func Families(tier string) []Family {
 		}
 		for _, m := range []mk{
 			{"multi-ss", "sslice", Ts("--l", "--l=v", "v", "w", "--b", "--", "-", "cmd", "-x", "")},
-			{"multi-is", "islice", Ts("--l", "--l=1", "--l=1..3", "1", "2", "1.5", "1..3", "3..1", "x", "--b", "--", "99999999999999999999")},
+			{"multi-is", "islice", Ts("--l", "--l=1", "--l=1..3", "1", "2", "1.5", "1..3", "3..1", "x", "--b", "--", "99999999999999999999", "010")},
 			{"multi-fs", "fslice", Ts("--l", "--l=0.1", "--l=x", "1.5", "2", "1e-320", "x", "--b", "--")},
 			{"multi-sm", "smap", Ts("--l", "--l=k=v", "k=v", "k=w=z", "K=v", "j=1", "x", "--b", "--")},
 		} {
@@ -249,6 +249,20 @@ func Families(tier string) []Family {
 				cu.Nodes = []NodeCfg{rootNode(2, false)}
 				cu.Opts = []OptCfg{opt("string", "größe", 1), opt("bool", "maße", 1), opt("bool", "maßstab", 1), opt("bool", "日本語", 1)}
 				f.Defs = append(f.Defs, Def{Cfg: cu, Tokens: Ts("--grö", "--größ", "--größe=x", "--g", "--maß", "--maße", "--ma", "--日", "--日本", "-grö", "x"), L: lim(tier, 3, 3)})
+			}
+			if mode < 2 {
+				// a wrapper (UnsetOptions) sees neither the names nor the aliases of the options above it: -q / --q / --qu mean
+				// its own query (or are ambiguous with quick), never the top level's quiet|q
+				for variant := 0; variant < 2; variant++ {
+					cw := Cfg{Mode: mode}
+					cw.Nodes = []NodeCfg{rootNode(0, false), cmdNode("w", 1, 0, false, true), cmdNode("s", 2, 0, false, true)}
+					cw.Nodes[1].Unset = true
+					cw.Opts = []OptCfg{opt("bool", "quiet", 1, "q", "qq"), opt("string", "query", 2)}
+					if variant == 1 {
+						cw.Opts = append(cw.Opts, opt("bool", "quick", 2, "qk"))
+					}
+					f.Defs = append(f.Defs, Def{Cfg: cw, Tokens: Ts("w", "s", "-q", "--q", "--qu", "--qq", "--quiet", "--query=x", "x"), L: lim(tier, 3, 4)})
+				}
 			}
 			if mode == 0 {
 				// a two-pass program: an earlier Parse visited cmd before the help option existed; afterwards --hel / --he
